@@ -29,7 +29,7 @@ def alloc_model(ck, quick):
     # 1. TLC on Alloc: every reachable (tree, capacities) state under up to MaxFaults failed calls, every fault index
     LIGHT = ('CapOK', 'AbsOK', 'SoundF', 'OverfullOnlyAfterFault', 'FaultSeen', 'ErrIsMemoryError')
     for (nk, lf, it, is_set, ma, mf, invs) in ([(4, 2, 2, False, 16, 2, AINV), (4, 2, 2, True, 2, 2, AINV), (4, 3, 2, False, 2, 2, AINV), (5, 2, 2, False, 16, 1, LIGHT)] if quick else
-                                               [(4, 2, 2, False, 16, 3, AINV), (4, 2, 2, True, 2, 3, AINV), (4, 3, 2, False, 2, 3, AINV), (5, 2, 2, False, 16, 1, AINV), (5, 2, 2, False, 16, 2, LIGHT), (5, 2, 2, True, 2, 2, LIGHT), (5, 3, 2, False, 2, 2, LIGHT), (5, 2, 3, False, 16, 1, LIGHT), (6, 2, 2, True, 2, 1, LIGHT)]):
+                                               [(4, 2, 2, False, 16, 3, AINV), (4, 2, 2, True, 2, 3, AINV), (4, 3, 2, False, 2, 3, AINV), (5, 2, 2, False, 16, 1, AINV), (5, 2, 2, False, 16, 2, LIGHT), (5, 2, 2, True, 2, 2, LIGHT), (5, 3, 2, False, 2, 2, LIGHT), (5, 2, 3, False, 16, 1, LIGHT)]):
         r = tlc.run('Alloc', acfg(nk, lf, it, is_set, minalloc=ma, maxfaults=mf, invs=invs), timeout=3400)
         name = 'Alloc keys=%d sizes=(%d,%d) %s MIN_BUCKET_ALLOC=%d failed calls<=%d' % (nk, lf, it, 'set' if is_set else 'map', ma, mf)
         ck.add_tlc(r.summary(), name)
